@@ -31,16 +31,41 @@ def cov_of(U, lam):
 
 
 # ----------------------------------------------------------------------------- single trainers
+_SAL_COUNT = [0]
+_FORCE = [None]      # dedicated stratum: every trainer once with an integer and once with a boolean saliency
+
+
+def sal_kind(rng, s):
+    """the same non-negative weights as float64 (mostly), as an integer count array or as a boolean mask (a 0/1 weight):
+    'all non-negative saliency weights with positive sum' does not fix the dtype"""
+    _SAL_COUNT[0] += 1
+    u = (0.0, 0.75, 0.0, 0.9)[_SAL_COUNT[0] % 4]      # stratified: float, int, float, bool
+    if _FORCE[0]:
+        u = {'int': 0.75, 'bool': 0.9}[_FORCE[0]]
+    rng.random()
+    if u < 0.7:
+        return s
+    if u < 0.85:
+        c = np.floor(s * 2.5).astype(np.int64)
+    else:
+        c = s > np.median(s, axis=-1, keepdims=True)
+        c[..., 0] = True
+        c[..., 1] = True            # at least two observations carry weight in every slice
+    if np.any(c.sum(-1) == 0):
+        return s
+    return c
+
+
 def single_gauss(rng, tier):
     from pb_bss.distribution import GaussianTrainer
     D, N = int(rng.integers(1, 6)), int(rng.integers(6, 20))
     lead = tuple(int(v) for v in rng.integers(1, 3, int(rng.integers(0, 2))))
     y = rng.normal(size=(*lead, N, D)) * 10.0 ** rng.integers(-2, 3) + rng.normal(size=(*lead, 1, D)) * 3
-    s = None if rng.random() < 0.3 else rng.uniform(0.0, 2.0, size=(*lead, N))
+    s = None if (rng.random() < 0.3 and not _FORCE[0]) else sal_kind(rng, rng.uniform(0.0, 2.0, size=(*lead, N)))
     ct = ['full', 'diagonal', 'spherical'][int(rng.integers(0, 3))]
     rp = {'fn': 'gauss', 'y': y, 's': s, 'ct': ct}
     return _mk(rp, 'GaussianTrainer.fit %s D=%d N=%d lead=%s saliency=%s' % (ct, D, N, lead, s is not None),
-               N > D and (s is None or np.ptp(s) > 0), rng)
+               N > D and (s is None or np.ptp(np.asarray(s, float)) > 0), rng)
 
 
 def eval_gauss(rp, rng):
@@ -48,7 +73,7 @@ def eval_gauss(rp, rng):
     y, s, ct = np.array(rp['y']), rp['s'], rp['ct']
     y.setflags(write=False)
     m = GaussianTrainer().fit(y, saliency=s, covariance_type=ct)
-    ss = np.ones(y.shape[:-1]) if s is None else np.asarray(s)
+    ss = np.ones(y.shape[:-1]) if s is None else np.asarray(s, dtype=float)
     den = np.maximum(ss.sum(-1), TINY)
     mean = np.einsum('...n,...nd->...d', ss, y) / den[..., None]
     d = y - mean[..., None, :]
@@ -69,17 +94,17 @@ def single_ccsg(rng, tier):
     D, N = int(rng.integers(1, 5)), int(rng.integers(5, 16))
     lead = tuple(int(v) for v in rng.integers(1, 3, int(rng.integers(0, 2))))
     y = mm.crandn(rng, (*lead, N, D)) * 10.0 ** rng.integers(-2, 3)
-    s = None if rng.random() < 0.3 else rng.uniform(0.0, 2.0, size=(*lead, N))
+    s = None if (rng.random() < 0.3 and not _FORCE[0]) else sal_kind(rng, rng.uniform(0.0, 2.0, size=(*lead, N)))
     rp = {'fn': 'ccsg', 'y': y, 's': s}
     return _mk(rp, 'ComplexCircularSymmetricGaussianTrainer.fit D=%d N=%d lead=%s saliency=%s' % (D, N, lead, s is not None),
-               N > D and (s is None or np.ptp(s) > 0), rng)
+               N > D and (s is None or np.ptp(np.asarray(s, float)) > 0), rng)
 
 
 def eval_ccsg(rp, rng):
     from pb_bss.distribution.complex_circular_symmetric_gaussian import ComplexCircularSymmetricGaussianTrainer as Tr
     y, s = np.array(rp['y']), rp['s']
     m = Tr().fit(y, saliency=s)
-    ss = np.ones(y.shape[:-1]) if s is None else np.asarray(s)
+    ss = np.ones(y.shape[:-1]) if s is None else np.asarray(s, dtype=float)
     want = np.einsum('...n,...nd,...ne->...de', ss, y, y.conj()) / np.maximum(ss.sum(-1), TINY)[..., None, None]
     if np.abs(m.covariance - want).max() > 1e-9 * np.abs(want).max():
         return 'complex Gaussian trainer is not the weighted outer-product mean E[y y^H]', 'single:ccsg', None
@@ -96,18 +121,18 @@ def single_vmf(rng, tier):
     mu = rng.normal(size=(*lead, 1, D))
     y = mu * float(rng.choice([0.0, 1.0, 4.0])) + rng.normal(size=(*lead, N, D))
     y *= 10.0 ** rng.integers(-3, 4, size=(*lead, N, 1))
-    s = None if rng.random() < 0.3 else rng.uniform(0.0, 2.0, size=(*lead, N))
+    s = None if (rng.random() < 0.3 and not _FORCE[0]) else sal_kind(rng, rng.uniform(0.0, 2.0, size=(*lead, N)))
     kmin, kmax = (1e-10, 500.0) if rng.random() < 0.5 else (float(rng.choice([1e-10, 0.5])), float(rng.choice([5.0, 50.0])))
     rp = {'fn': 'vmf', 'y': y, 's': s, 'kmin': kmin, 'kmax': kmax}
     return _mk(rp, 'VonMisesFisherTrainer.fit D=%d N=%d lead=%s saliency=%s clip=[%g,%g]' % (D, N, lead, s is not None, kmin, kmax),
-               N > D and (s is None or np.ptp(s) > 0), rng)
+               N > D and (s is None or np.ptp(np.asarray(s, float)) > 0), rng)
 
 
 def eval_vmf(rp, rng):
     from pb_bss.distribution import VonMisesFisherTrainer
     y, s, kmin, kmax = np.array(rp['y']), rp['s'], rp['kmin'], rp['kmax']
     m = VonMisesFisherTrainer().fit(y, saliency=s, min_concentration=kmin, max_concentration=kmax)
-    ss = np.ones(y.shape[:-1]) if s is None else np.asarray(s)
+    ss = np.ones(y.shape[:-1]) if s is None else np.asarray(s, dtype=float)
     yn = y / np.maximum(np.linalg.norm(y, axis=-1, keepdims=True), TINY)
     r = np.einsum('...n,...nd->...d', ss, yn)
     nr = np.linalg.norm(r, axis=-1)
@@ -138,11 +163,11 @@ def single_watson(rng, tier):
     a = mm.crandn(rng, (*lead, 1, D))
     y = a * mm.crandn(rng, (*lead, N, 1)) * float(rng.choice([0.3, 1.0, 5.0])) + mm.crandn(rng, (*lead, N, D))
     y *= 10.0 ** rng.integers(-3, 4, size=(*lead, N, 1))
-    s = None if rng.random() < 0.3 else rng.uniform(0.0, 2.0, size=(*lead, N))
+    s = None if (rng.random() < 0.3 and not _FORCE[0]) else sal_kind(rng, rng.uniform(0.0, 2.0, size=(*lead, N)))
     kmax = float(rng.choice([500.0, 500.0, 50.0]))
     rp = {'fn': 'watson', 'y': y, 's': s, 'kmax': kmax}
     return _mk(rp, 'ComplexWatsonTrainer.fit D=%d N=%d lead=%s saliency=%s max_concentration=%g' % (D, N, lead, s is not None, kmax),
-               N > D and (s is None or np.ptp(s) > 0), rng)
+               N > D and (s is None or np.ptp(np.asarray(s, float)) > 0), rng)
 
 
 def eval_watson(rp, rng):
@@ -150,7 +175,7 @@ def eval_watson(rp, rng):
     y, s, kmax = np.array(rp['y']), rp['s'], rp['kmax']
     D, N = y.shape[-1], y.shape[-2]
     m = ComplexWatsonTrainer(max_concentration=kmax).fit(y, saliency=s)
-    ss = np.ones(y.shape[:-1]) if s is None else np.asarray(s)
+    ss = np.ones(y.shape[:-1]) if s is None else np.asarray(s, dtype=float)
     yn = y / np.maximum(np.linalg.norm(y, axis=-1, keepdims=True), TINY)
     A = np.einsum('...n,...nd,...ne->...de', ss, yn, yn.conj()) / ss.sum(-1)[..., None, None]
     ev, evec = np.linalg.eigh(A)
@@ -174,6 +199,7 @@ def single_cacg(rng, tier):
     D, N = int(rng.integers(2, 6)), int(rng.integers(6, 18))
     lead = tuple(int(v) for v in rng.integers(1, 3, int(rng.integers(0, 2))))
     y = mm.crandn(rng, (*lead, N, D)) * mm.crandn(rng, (*lead, 1, D))
+    # the private _fit is only reached with saliency * affiliation (always floating point): no integer / boolean stratum
     s = None if rng.random() < 0.3 else rng.uniform(0.0, 2.0, size=(*lead, N))
     q = rng.uniform(0.2, 3.0, size=(*lead, N))
     if rng.random() < 0.15:
@@ -182,7 +208,7 @@ def single_cacg(rng, tier):
          'eigenvalue_floor': float(rng.choice([1e-10, 1e-4, 1e-2]))}
     rp = {'fn': 'cacg', 'y': y, 's': s, 'q': q, 'o': o}
     return _mk(rp, 'ComplexAngularCentralGaussianTrainer._fit D=%d N=%d lead=%s saliency=%s %s' % (D, N, lead, s is not None, o),
-               N > D and (s is None or np.ptp(s) > 0), rng)
+               N > D and (s is None or np.ptp(np.asarray(s, float)) > 0), rng)
 
 
 def cacg_reference(yn, ss, q, o, saliency_none=False):
@@ -204,7 +230,7 @@ def eval_cacg(rp, rng):
     D, N = y.shape[-1], y.shape[-2]
     yn = normalize_observation(y)          # (..., D, N)
     m = ComplexAngularCentralGaussianTrainer()._fit(y=yn, saliency=s, quadratic_form=q, **o)
-    ss = np.ones(y.shape[:-1]) if s is None else np.asarray(s)
+    ss = np.ones(y.shape[:-1]) if s is None else np.asarray(s, dtype=float)
     ynn = np.swapaxes(yn, -1, -2)
     fail = cacg_step_predicate(ynn, ss, q, o, m.covariance_eigenvectors, m.covariance_eigenvalues)
     if fail:
@@ -288,7 +314,7 @@ def single_bingham(rng, tier):
     D, N = int(rng.integers(2, 5)), int(rng.integers(8, 16))
     a = mm.crandn(rng, (1, D))
     y = a * mm.crandn(rng, (N, 1)) * float(rng.choice([0.5, 2.0])) + mm.crandn(rng, (N, D))
-    s = None if rng.random() < 0.4 else rng.uniform(0.1, 2.0, size=(N,))
+    s = None if (rng.random() < 0.4 and not _FORCE[0]) else sal_kind(rng, rng.uniform(0.1, 2.0, size=(N,)))
     rp = {'fn': 'bingham', 'y': y, 's': s}
     return _mk(rp, 'ComplexBinghamTrainer.fit D=%d N=%d saliency=%s' % (D, N, s is not None), True, rng)
 
@@ -299,7 +325,7 @@ def eval_bingham(rp, rng):
     y, s = np.array(rp['y']), rp['s']
     D = y.shape[-1]
     m = ComplexBinghamTrainer().fit(y, saliency=s)
-    ss = np.ones(y.shape[:-1]) if s is None else np.asarray(s)
+    ss = np.ones(y.shape[:-1]) if s is None else np.asarray(s, dtype=float)
     yn = y / np.maximum(np.linalg.norm(y, axis=-1, keepdims=True), TINY)
     A = np.einsum('n,nd,ne->de', ss, yn, yn.conj()) / ss.sum()
     A = (A + herm(A)) / 2
@@ -412,6 +438,11 @@ def eval_trace(rp, rng):
         f = weights_predicate(name, mdl, aff, sal, opts.get('weight_constant_axis', (-1,)), K)
         if f:
             return 'iteration %d: %s' % (it + 1, f), 'trace:weights:%s' % name, None
+        if name in mm.INTEGRATION:
+            for attr in ('spatial_weight', 'spectral_weight'):
+                if float(getattr(mdl, attr)) != float(opts.get(attr, 1.0)):
+                    return ('iteration %d: model.%s = %r but the trainer was configured with %r'
+                            % (it + 1, attr, getattr(mdl, attr), opts.get(attr, 1.0))), 'trace:stream-exponent:%s' % name, None
         # ---------------- M-step: class parameters -----------------
         f, coq = mstep_check(name, mdl, yn, data, aff, salv, rec.get('quadratic_form'), opts, li, k, rng)
         if f:
@@ -422,7 +453,7 @@ def eval_trace(rp, rng):
         if it >= 1:
             prev = trace[it - 1]['model']
             try:
-                lp, w = mm.components(name, prev, data)
+                lp, w = mm.components(name, prev, data, opts)
             except Exception as e:
                 return 'component log_pdf raised %s' % type(e).__name__, 'trace:logpdf:%s' % name, None
             m2 = mask if name == 'cacgmm' else None
@@ -616,6 +647,8 @@ def repeat_case(rng, tier):
     name = str(rng.choice(['gauss', 'vmf', 'ccsg', 'watson', 'cacgmm', 'gmm', 'vmfmm', 'cwmm', 'cacgmm', 'gcacgmm']))
     N, D, K = int(rng.integers(6, 12)), int(rng.integers(2, 4)), int(rng.integers(2, 4))
     s = np.floor(rng.uniform(1, 5, size=N))
+    if rng.random() < 0.5:
+        s = s.astype(np.int64)        # counts are naturally integers
     seed = int(rng.integers(0, 2 ** 31))
     rp = {'fn': 'repeat', 'what': name, 'N': N, 'D': D, 'K': K, 's': s, 'seed': seed, 'iters': int(rng.integers(1, 4))}
     return _mk(rp, 'integer saliency vs repetition: %s N=%d D=%d K=%d iters=%d' % (name, N, D, K, rp['iters']), bool((s > 1).any()), rng,
@@ -761,6 +794,14 @@ def cases(rng, tier):
     singles = [single_gauss, single_ccsg, single_vmf, single_watson, single_cacg, single_cacg, single_cacg_fit, single_bingham]
     for i in range(32 if q else 320):
         out.append(singles[i % len(singles)](rng, tier))
+    for kind in ('bool', 'int'):
+        for fn in (single_gauss, single_ccsg, single_vmf, single_watson, single_bingham):
+            for rep in range(1 if q else 4):
+                _FORCE[0] = kind
+                try:
+                    out.append(fn(rng, tier))
+                finally:
+                    _FORCE[0] = None
     for i in range(28 if q else 250):
         out.append(trace_case(rng, tier))
     for i in range(6 if q else 60):
